@@ -197,8 +197,11 @@ def _kw_cycle(i, seed, **base):
     # how the simulator is assembled: verbose output on, the queue filled in different documented ways, the scheduler
     # attached after construction
     kw.setdefault("verbose", i % 4 == 3)
-    kw.setdefault("queue_form", ["ctor", "add_events", "add_event", "shuffled", "two_batches", "reused", "restored"][(i // 3) % 7])
+    kw.setdefault("queue_form", ["ctor", "add_events", "add_event", "shuffled", "two_batches", "reused", "restored", "generator",
+                                 "after_ctor"][(i // 3) % 9])
     kw.setdefault("late_scheduler", i % 5 == 2)
+    kw.setdefault("np_ints", i % 6 == 4)
+    kw.setdefault("aware_start", i % 7 == 3)
     return kw
 
 
@@ -240,6 +243,17 @@ def long_behaviours(rep, tier, seed, overrides):
     return bhvs
 
 
+def odd_period_behaviours(rep, tier, seed, overrides):
+    """Behaviours with a period of 7 minutes (60/7 periods per hour: nothing may assume that the period divides an hour)."""
+    n = 200 if tier == "quick" else 6000
+    ov = dict(overrides, T="= 7")
+    bhvs, stats = gen_behaviours("AcnSim_gen", ov, n, 160, seed + 77, procs=2 if tier == "quick" else 8)
+    for s in stats:
+        rep.add_tlc(s, "behaviour generation with a 7-minute period (-simulate)", "AcnSim_gen %s" % ov)
+    rep.notes.append("%d sampled behaviours with a 7-minute period" % len(bhvs))
+    return bhvs
+
+
 def check_spec_replay(prop, tier, seed, owners, overrides, n_quick, n_thorough, base_kw=None, extra_assumptions=()):
     rep = Report(prop, tier, seed)
     rep.rule = ("behaviours of AcnSim.tla generated by TLC (-simulate and one exhaustive tiny configuration), "
@@ -262,8 +276,15 @@ def check_spec_replay(prop, tier, seed, owners, overrides, n_quick, n_thorough, 
     rep.exhaustive = False
     rep.notes.append("every behaviour of AcnSim_gen_tiny (%d) replayed; %d sampled behaviours of AcnSim_gen" % (len(tiny), len(bhvs)))
     longb = long_behaviours(rep, tier, seed, {k: v for k, v in overrides.items() if k in ("MaxCrash", "AllowDump")})
-    allb = tiny + bhvs + longb
+    oddb = odd_period_behaviours(rep, tier, seed, overrides)
+    allb = tiny + bhvs + longb + oddb
     jobs = [(b, _kw_cycle(i, seed, **(base_kw or {})), seed * 100003 + i) for i, b in enumerate(allb)]
+    if prop == "C02":
+        # the ledger ties three separately stored quantities together for ANY battery model: the same behaviours with
+        # two-stage batteries (continuous and stepwise), where only the implementation's own numbers are compared
+        jobs += [(b, _kw_cycle(i + 1, seed, twostage=True, **(base_kw or {})), seed * 100003 + i)
+                 for i, b in enumerate(oddb + bhvs[:len(bhvs) // 4])]
+        allb = allb + oddb + bhvs[:len(bhvs) // 4]
     results = run_pool(_work_spec, jobs, 1 if tier == "quick" and len(jobs) < 400 else 12)
     for (b, kw, _), d in zip(jobs, results):
         judge(rep, prop, b, kw, d, owners)
